@@ -62,9 +62,17 @@ type FuncContract struct {
 	lit  *ast.FuncLit // for closures
 	pkg  *packages.Package
 	ext  bool
+	resAlias []resAlias
+	extern bool // contract on code outside /repo (assumed)
+	iface bool
 	extParams []*types.Var // for ext contracts: the params of the synthetic signature (recv first)
 	extResults []*types.Var
 	calls  string // "once" / "*" for callback parameters: name of param -> mode
+}
+
+type resAlias struct {
+	obj *types.Var
+	idx int
 }
 
 type Program struct {
@@ -232,6 +240,9 @@ func installUniverse() {
 	mk("mathdiv", []types.Type{intT, intT}, intT, false)
 	mk("mathmod", []types.Type{intT, intT}, intT, false)
 	mk("pure", []types.Type{anyT}, anyT, false)
+	mk("b2i", []types.Type{boolT}, intT, false)
+	mk("has", []types.Type{anyT, anyT}, boolT, false)
+	mk("gmap", []types.Type{types.Typ[types.String], types.NewSlice(anyT)}, types.NewMap(types.Typ[types.String], types.Typ[types.String]), true)
 }
 
 // ---------------------------------------------------------------------------------------
@@ -260,17 +271,130 @@ type rawBlock struct {
 	clauses []*rawClause
 }
 
+type macro struct {
+	name   string
+	params []string
+	body   string
+}
+
+var macros = map[string]*macro{}
+var macroDefRe = regexp.MustCompile(`^define\s+([A-Za-z_][A-Za-z0-9_]*)\(([^)]*)\)\s*=\s*(.*)$`)
+
+// expandMacros substitutes `name(args)` by the parenthesised macro body, repeatedly.
+func expandMacros(s string) (string, error) {
+	for round := 0; round < 12; round++ {
+		changed := false
+		for name, m := range macros {
+			for {
+				idx := findMacroCall(s, name)
+				if idx < 0 {
+					break
+				}
+				open := idx + len(name)
+				cl := matchParen(s, open)
+				if cl < 0 {
+					return "", fmt.Errorf("unbalanced macro call %s", name)
+				}
+				var args []string
+				if strings.TrimSpace(s[open+1:cl]) != "" {
+					args = splitTopLevel(s[open+1:cl], ',')
+				}
+				if len(args) != len(m.params) {
+					return "", fmt.Errorf("macro %s expects %d arguments, got %d", name, len(m.params), len(args))
+				}
+				body := m.body
+				body = substIdents(body, m.params, args)
+				s = s[:idx] + "(" + body + ")" + s[cl+1:]
+				changed = true
+			}
+		}
+		if !changed {
+			return s, nil
+		}
+	}
+	return "", fmt.Errorf("macro expansion does not terminate")
+}
+
+func findMacroCall(s, name string) int {
+	from := 0
+	for {
+		i := strings.Index(s[from:], name+"(")
+		if i < 0 {
+			return -1
+		}
+		i += from
+		if i == 0 || !(isIdentByte(s[i-1]) || s[i-1] == '.') {
+			return i
+		}
+		from = i + 1
+	}
+}
+
+func substIdents(body string, params, args []string) string {
+	var b strings.Builder
+	i := 0
+	for i < len(body) {
+		c := body[i]
+		if c == '"' || c == '\'' || c == '`' {
+			j := skipQuoted(body, i)
+			b.WriteString(body[i:j])
+			i = j
+			continue
+		}
+		if isIdentByte(c) && !(c >= '0' && c <= '9') {
+			j := i
+			for j < len(body) && isIdentByte(body[j]) {
+				j++
+			}
+			tok := body[i:j]
+			repl := tok
+			if i == 0 || body[i-1] != '.' {
+				for k, p := range params {
+					if strings.TrimSpace(p) == tok {
+						repl = "(" + strings.TrimSpace(args[k]) + ")"
+					}
+				}
+			}
+			b.WriteString(repl)
+			i = j
+			continue
+		}
+		b.WriteByte(c)
+		i++
+	}
+	return b.String()
+}
+
 func parseContractLines(lines []string, wheres []string) ([]*rawBlock, error) {
 	var blocks []*rawBlock
 	var cur *rawBlock
 	var last *rawClause
+	var lastMacro *macro
 	for i, ln := range lines {
 		t := strings.TrimSpace(ln)
 		if t == "" {
 			last = nil
+			lastMacro = nil
 			continue
 		}
 		if strings.HasPrefix(t, "#") { // comment inside contract file
+			continue
+		}
+		if m := macroDefRe.FindStringSubmatch(t); m != nil {
+			var ps []string
+			if strings.TrimSpace(m[2]) != "" {
+				for _, p := range strings.Split(m[2], ",") {
+					ps = append(ps, strings.TrimSpace(p))
+				}
+			}
+			lastMacro = &macro{name: m[1], params: ps, body: m[3]}
+			macros[m[1]] = lastMacro
+			last = nil
+			cur = nil
+			continue
+		}
+		if lastMacro != nil && cur == nil {
+			lastMacro.body += " " + t
 			continue
 		}
 		if m := headRe.FindStringSubmatch(t); m != nil {
@@ -562,11 +686,90 @@ func (p *Program) bindContracts() error {
 		return err
 	}
 	for _, b := range blocks {
-		pk := owner[b]
-		fi := p.findFunc(pk, b.key)
-		if fi == nil {
-			return fmt.Errorf("%s: contract for %q does not bind to any function in %s", b.where, b.key, pk.PkgPath)
+		if err := p.bindBlock(owner[b], b, false); err != nil {
+			return err
 		}
+	}
+	return nil
+}
+
+// resolveIfaceMethod finds "(pkgpath.T).M" or (relative to pk) "T.M" where T is an interface type.
+func (p *Program) resolveIfaceMethod(pk *packages.Package, key string) (*packages.Package, *types.Func, *ast.Field) {
+	key = strings.TrimSpace(key)
+	var pkgPath, tname, mname string
+	if strings.HasPrefix(key, "(") {
+		i := strings.Index(key, ").")
+		if i < 0 {
+			return nil, nil, nil
+		}
+		inner := strings.TrimPrefix(key[1:i], "*")
+		mname = key[i+2:]
+		j := strings.LastIndex(inner, ".")
+		if j < 0 {
+			if pk == nil {
+				return nil, nil, nil
+			}
+			pkgPath, tname = pk.PkgPath, inner
+		} else {
+			pkgPath, tname = inner[:j], inner[j+1:]
+		}
+	} else {
+		i := strings.Index(key, ".")
+		if i < 0 || pk == nil {
+			return nil, nil, nil
+		}
+		pkgPath, tname, mname = pk.PkgPath, key[:i], key[i+1:]
+	}
+	tp := p.pkgs[pkgPath]
+	if tp == nil || tp.Types == nil {
+		return nil, nil, nil
+	}
+	tn, ok := tp.Types.Scope().Lookup(tname).(*types.TypeName)
+	if !ok {
+		return nil, nil, nil
+	}
+	it, ok := tn.Type().Underlying().(*types.Interface)
+	if !ok {
+		return nil, nil, nil
+	}
+	for i := 0; i < it.NumMethods(); i++ {
+		m := it.Method(i)
+		if m.Name() != mname {
+			continue
+		}
+		// find the syntax of the method (it may come from an embedded interface of the same package)
+		var field *ast.Field
+		for _, f := range tp.Syntax {
+			ast.Inspect(f, func(n ast.Node) bool {
+				if itf, ok := n.(*ast.InterfaceType); ok {
+					for _, fl := range itf.Methods.List {
+						for _, nm := range fl.Names {
+							if tp.TypesInfo.Defs[nm] == types.Object(m) {
+								field = fl
+							}
+						}
+					}
+				}
+				return field == nil
+			})
+		}
+		if field == nil {
+			return nil, nil, nil
+		}
+		return tp, m, field
+	}
+	return nil, nil, nil
+}
+
+func (p *Program) bindBlock(pk *packages.Package, b *rawBlock, ext bool) error {
+	var fi *FuncInfo
+	if pk != nil {
+		fi = p.findFunc(pk, b.key)
+	}
+	if fi == nil {
+		fi = p.funcs[strings.TrimSpace(b.key)]
+	}
+	if fi != nil {
 		if _, dup := p.contracts[fi.fn.FullName()]; dup {
 			return fmt.Errorf("%s: duplicate contract for %s", b.where, fi.fn.FullName())
 		}
@@ -578,7 +781,152 @@ func (p *Program) bindContracts() error {
 		if err := p.fillContract(fc, b.clauses, fi.decl.Body, fi.decl.Type, nil); err != nil {
 			return err
 		}
+		if ext || !strings.HasPrefix(fi.pkg.PkgPath, repoModule) {
+			fc.trusted = true
+			fc.extern = true
+		}
 		p.contracts[fc.key] = fc
+		return nil
+	}
+	tp, m, field := p.resolveIfaceMethod(pk, b.key)
+	if m == nil {
+		where := "the loaded packages"
+		if pk != nil {
+			where = pk.PkgPath
+		}
+		return fmt.Errorf("%s: contract for %q does not bind to any function in %s", b.where, b.key, where)
+	}
+	if _, dup := p.contracts[m.FullName()]; dup {
+		return fmt.Errorf("%s: duplicate contract for %s", b.where, m.FullName())
+	}
+	// synthetic scope inside the file scope of the interface declaration
+	var fileScope *types.Scope
+	for i := 0; i < tp.Types.Scope().NumChildren(); i++ {
+		c := tp.Types.Scope().Child(i)
+		if c.Contains(field.Pos()) {
+			fileScope = c
+		}
+	}
+	if fileScope == nil {
+		return fmt.Errorf("%s: no file scope for %s", b.where, m.FullName())
+	}
+	scope := types.NewScope(fileScope, field.Pos(), field.End(), "contract of "+m.FullName())
+	sig := m.Type().(*types.Signature)
+	fc := &FuncContract{key: m.FullName(), fn: m, pkg: tp, where: b.where, loops: map[int]*LoopContract{}, closures: map[int]*FuncContract{},
+		trusted: true, ext: true, extern: !strings.HasPrefix(tp.PkgPath, repoModule), iface: true}
+	recv := types.NewVar(field.Pos(), tp.Types, "recv", sig.Recv().Type())
+	scope.Insert(recv)
+	fc.extParams = append(fc.extParams, recv)
+	for i := 0; i < sig.Params().Len(); i++ {
+		pv := sig.Params().At(i)
+		name := pv.Name()
+		if name == "" || name == "_" {
+			name = fmt.Sprintf("p%d", i)
+		}
+		v := types.NewVar(field.Pos(), tp.Types, name, pv.Type())
+		scope.Insert(v)
+		fc.extParams = append(fc.extParams, v)
+	}
+	res := sig.Results()
+	for i := 0; i < res.Len(); i++ {
+		rv := res.At(i)
+		name := rv.Name()
+		if name == "" || name == "_" {
+			name = "result"
+			if res.Len() > 1 {
+				name = fmt.Sprintf("result%d", i)
+			}
+			if i == res.Len()-1 && types.Identical(rv.Type(), types.Universe.Lookup("error").Type()) {
+				name = "err"
+			}
+		}
+		v := types.NewVar(field.Pos(), tp.Types, name, rv.Type())
+		scope.Insert(v)
+		fc.extResults = append(fc.extResults, v)
+		fc.resAlias = append(fc.resAlias, resAlias{v, i})
+		if i == 0 && res.Len() == 2 && name == "result0" {
+			v2 := types.NewVar(field.Pos(), tp.Types, "result", rv.Type())
+			scope.Insert(v2)
+			fc.resAlias = append(fc.resAlias, resAlias{v2, i})
+		}
+	}
+	for _, rc := range b.clauses {
+		if rc.scope == "" && rc.kind == "props" {
+			fc.props = strings.Fields(strings.ReplaceAll(rc.text, ",", " "))
+		}
+	}
+	pos := field.Pos()
+	for _, rc := range b.clauses {
+		if rc.scope != "" {
+			return fmt.Errorf("%s: loop/closure clauses on an interface method", rc.where)
+		}
+		switch rc.kind {
+		case "props", "trusted":
+		case "pure":
+			fc.pure = true
+		case "requires", "ensures":
+			cl, err := p.checkClause(fc, rc, rc.where, pos)
+			if err != nil {
+				return err
+			}
+			if rc.kind == "requires" {
+				fc.requires = append(fc.requires, cl)
+			} else {
+				fc.ensures = append(fc.ensures, cl)
+			}
+		case "modifies":
+			if strings.TrimSpace(rc.text) == "*" {
+				fc.modAll = true
+				continue
+			}
+			if strings.TrimSpace(rc.text) == "nothing" {
+				continue
+			}
+			for _, part := range splitTopLevel(rc.text, ',') {
+				sub := &rawClause{kind: "modifies", text: strings.TrimSpace(part)}
+				cl, err := p.checkClauseAny(fc, sub, rc.where, pos)
+				if err != nil {
+					return err
+				}
+				fc.modifies = append(fc.modifies, cl)
+			}
+		default:
+			return fmt.Errorf("%s: clause kind %q not allowed on an interface method", rc.where, rc.kind)
+		}
+	}
+	p.contracts[fc.key] = fc
+	return nil
+}
+
+// loadExtContracts reads /verif/contracts/ext/*.spec: assumed contracts on code outside /repo.
+func (p *Program) loadExtContracts(dir string) error {
+	files, _ := filepath.Glob(filepath.Join(dir, "*.spec"))
+	sort.Strings(files)
+	for _, f := range files {
+		data, err := os.ReadFile(f)
+		if err != nil {
+			return err
+		}
+		var lines, wheres []string
+		for i, ln := range strings.Split(string(data), "\n") {
+			t := strings.TrimSpace(ln)
+			if strings.HasPrefix(t, "//@") {
+				t = strings.TrimPrefix(t, "//@")
+			} else if strings.HasPrefix(t, "//") {
+				continue
+			}
+			lines = append(lines, t)
+			wheres = append(wheres, fmt.Sprintf("contracts/ext/%s:%d", filepath.Base(f), i+1))
+		}
+		blocks, err := parseContractLines(lines, wheres)
+		if err != nil {
+			return err
+		}
+		for _, b := range blocks {
+			if err := p.bindBlock(nil, b, true); err != nil {
+				return err
+			}
+		}
 	}
 	return nil
 }
@@ -638,20 +986,34 @@ func (p *Program) fillContract(fc *FuncContract, clauses []*rawClause, body *ast
 	scope := pk.TypesInfo.Scopes[ftype]
 	if scope != nil && sig != nil {
 		res := sig.Results()
+		errT := types.Universe.Lookup("error").Type()
+		alias := func(name string, i int) {
+			if o, ok := scope.Lookup(name).(*types.Var); ok {
+				if types.Identical(o.Type(), res.At(i).Type()) {
+					fc.resAlias = append(fc.resAlias, resAlias{o, i})
+				}
+				return
+			}
+			v := types.NewVar(ftype.Pos(), pk.Types, name, res.At(i).Type())
+			scope.Insert(v)
+			fc.resAlias = append(fc.resAlias, resAlias{v, i})
+		}
 		for i := 0; i < res.Len(); i++ {
-			name := res.At(i).Name()
-			if name == "" || name == "_" {
-				nm := "result"
-				if res.Len() > 1 {
-					nm = fmt.Sprintf("result%d", i)
+			r := res.At(i)
+			if r.Name() != "" && r.Name() != "_" {
+				fc.resAlias = append(fc.resAlias, resAlias{r, i})
+				continue
+			}
+			if res.Len() == 1 {
+				alias("result", i)
+			} else {
+				alias(fmt.Sprintf("result%d", i), i)
+				if i == 0 && res.Len() == 2 && types.Identical(res.At(1).Type(), errT) {
+					alias("result", i)
 				}
-				if scope.Lookup(nm) == nil {
-					scope.Insert(types.NewVar(ftype.Pos(), pk.Types, nm, res.At(i).Type()))
-				}
-				if i == res.Len()-1 && res.Len() > 1 && types.Identical(res.At(i).Type(), types.Universe.Lookup("error").Type()) && scope.Lookup("err") == nil {
-					// convenient alias for the trailing error result
-					scope.Insert(types.NewVar(ftype.Pos(), pk.Types, "err", res.At(i).Type()))
-				}
+			}
+			if i == res.Len()-1 && types.Identical(r.Type(), errT) {
+				alias("err", i)
 			}
 		}
 	}
@@ -719,7 +1081,7 @@ func (p *Program) fillContract(fc *FuncContract, clauses []*rawClause, body *ast
 		case "nopanic":
 			fc.nopanic = rc.text != "off"
 		case "requires", "ensures", "assume":
-			pos := body.Lbrace + 1
+			pos := body.Rbrace
 			cl, err := p.checkClause(fc, rc, rc.where, pos)
 			if err != nil {
 				return err
@@ -739,7 +1101,7 @@ func (p *Program) fillContract(fc *FuncContract, clauses []*rawClause, body *ast
 			}
 			for _, part := range splitTopLevel(rc.text, ',') {
 				sub := &rawClause{kind: "modifies", text: strings.TrimSpace(part)}
-				cl, err := p.checkClauseAny(fc, sub, rc.where, body.Lbrace+1)
+				cl, err := p.checkClauseAny(fc, sub, rc.where, body.Rbrace)
 				if err != nil {
 					return err
 				}
@@ -776,7 +1138,11 @@ func (p *Program) checkClause(fc *FuncContract, rc *rawClause, where string, pos
 }
 
 func (p *Program) checkClauseAny(fc *FuncContract, rc *rawClause, where string, pos token.Pos) (*Clause, error) {
-	goText, err := desugar(rc.text)
+	expanded, err := expandMacros(rc.text)
+	if err != nil {
+		return nil, fmt.Errorf("%s: %v", where, err)
+	}
+	goText, err := desugar(expanded)
 	if err != nil {
 		return nil, fmt.Errorf("%s: %v", where, err)
 	}
